@@ -814,6 +814,10 @@ pub fn s3_addressing(p: &Plan, sink: &mut Sink) {
         Probe { p66: false, w: true, op: &[0x89], modrm: true, reg: 2, kind: "store64" },  // mov m64, r64
         Probe { p66: false, w: false, op: &[0x01], modrm: true, reg: 2, kind: "rmw32" }, // add m32, r32
         Probe { p66: false, w: false, op: &[0x0F, 0x10], modrm: true, reg: 2, kind: "load128" }, // movups xmm, m128
+        // indirect transfers: the address the target is LOADED from (the loaded qword is poked to
+        // a valid code address; read from anywhere else it is an address-derived pattern)
+        Probe { p66: false, w: false, op: &[0xFF], modrm: true, reg: 4, kind: "jmp-mem" },  // jmp qword [m]
+        Probe { p66: false, w: false, op: &[0xFF], modrm: true, reg: 2, kind: "call-mem" }, // call qword [m]
         Probe { p66: false, w: false, op: &[0xA0], modrm: false, reg: 0, kind: "moffs-load8" }, // mov al, moffs8
         Probe { p66: true, w: false, op: &[0xA1], modrm: false, reg: 0, kind: "moffs-load16" },
         Probe { p66: false, w: false, op: &[0xA1], modrm: false, reg: 0, kind: "moffs-load32" },
@@ -985,11 +989,19 @@ pub fn s3_addressing(p: &Plan, sink: &mut Sink) {
                                             continue;
                                         }
                                     };
+                                    let transfer = pr.kind == "jmp-mem" || pr.kind == "call-mem";
+                                    if transfer && !in_pages(pl.ea, 8) {
+                                        continue;
+                                    }
+                                    if pr.kind == "call-mem" && !in_pages(s.gpr[4].wrapping_sub(16), 24) {
+                                        // the push of the return address needs a mapped slot
+                                        continue;
+                                    }
                                     sink.run(Case {
                                         bytes: pl.bytes,
                                         off: OFF,
                                         sigma: s,
-                                        pokes: vec![],
+                                        pokes: if transfer { vec![(pl.ea, (CODE + 0x40).to_le_bytes().to_vec())] } else { vec![] },
                                         tag: "S3".into(),
                                         extra_class: shape.clone(),
                                         subject: pr.kind.to_string(),
